@@ -20,7 +20,7 @@ from ..monitor import scheduler as SCH
 from ..monitor import shadowstore
 
 LEVEL = "exploration"
-TECHNIQUE = "runtime monitoring under a controlled scheduler: sys.settrace yield points on every line (thorough: opcode) of the jaxtyping package, exhaustive single-preemption of catalogued operation pairs + seeded random multi-preemption schedules + free-running stress; oracle = solo-run equality per thread and shadow-store ownership invariant; workers started in copied contextvars contexts, one context object shared by all threads, fresh annotation classes"
+TECHNIQUE = "runtime monitoring under a controlled scheduler: sys.settrace yield points on every line (thorough: opcode) of the jaxtyping package, exhaustive single-preemption of catalogued operation pairs + seeded random multi-preemption schedules + free-running stress; oracle = solo-run equality per thread and shadow-store ownership invariant; workers started in copied contextvars contexts, one context object shared by all threads, fresh annotation classes; operations that enter a nested scope during a flatten and that evaluate symbolic axes, the latter pairs enumerated at every yield point"
 LEVEL_TEXT = (
     "Single preemptions of each catalogued operation by each probing operation are executed at line granularity (quick: "
     "~120 evenly spread points per pair; thorough: opcode granularity, ~500 points per pair), plus a sample of "
